@@ -131,7 +131,16 @@ func (f *function) diffEnv() (bool, string, diff.ValueDiff, error) {
 
 	eq, err := starlark.EqualDepth(f.oldEnv, f.newEnv, 1000)
 	if err != nil {
-		return false, "", nil, fmt.Errorf("comparing function environments: %w", err)
+		// Environments that contain self-referential data cannot be compared structurally.
+		// Their encodings are deterministic, so compare those instead.
+		data, err := f.encode()
+		if err != nil {
+			return false, "", nil, fmt.Errorf("comparing function environments: %w", err)
+		}
+		if data == f.targetInfo.Data {
+			return true, "", nil, nil
+		}
+		return false, "environment changed", nil, nil
 	}
 	if eq {
 		return true, "", nil, nil
@@ -148,7 +157,8 @@ func (f *function) diffEnv() (bool, string, diff.ValueDiff, error) {
 
 	d, err := diff.DiffDepth(f.oldEnv, f.newEnv, 1000)
 	if err != nil {
-		return false, "", nil, fmt.Errorf("diffing environments: %w", err)
+		// The environments differ, but (part of) the difference involves self-referential data.
+		return false, "environment changed", nil, nil
 	}
 	md, ok := d.(*diff.MappingDiff)
 	if !ok {
@@ -244,15 +254,24 @@ func (f *function) evaluate() (data string, changed bool, err error) {
 		return "", false, err
 	}
 
+	data, err = f.encode()
+	if err != nil {
+		return "", false, err
+	}
+
+	f.oldEnv = f.newEnv
+	return data, true, nil
+}
+
+// encode returns the persisted form of the function's environment.
+func (f *function) encode() (string, error) {
 	var buf bytes.Buffer
 	b64 := base64.NewEncoder(base64.StdEncoding, &buf)
 	if err := pickle.NewEncoder(b64, newEnvPickler()).Encode(f.function); err != nil {
-		return "", false, err
+		return "", err
 	}
 	b64.Close()
-
-	f.oldEnv = f.newEnv
-	return buf.String(), true, nil
+	return buf.String(), nil
 }
 
 func (f *function) load() error {
